@@ -288,7 +288,7 @@ fn is_header(item: &syn::Item) -> bool {
 // ---- the simulated user -------------------------------------------------
 
 fn user_item(rng: &mut Rng, n: usize, gen_names: &[(Ns, String)]) -> (String, syn::Item) {
-    let pick = rng.below(12);
+    let pick = rng.below(20);
     let gt = gen_names.iter().filter(|x| x.0 == Ns::Type).map(|x| x.1.clone()).next().unwrap_or("Shadow".into());
     let gf = gen_names.iter().filter(|x| x.0 == Ns::Fn).map(|x| x.1.clone()).last().unwrap_or("shadow".into());
     let src = match pick {
@@ -304,7 +304,17 @@ fn user_item(rng: &mut Rng, n: usize, gen_names: &[(Ns, String)]) -> (String, sy
         8 => format!("pub mod user_mod_{n} {{ pub struct {gt}; pub fn {gf}() -> u8 {{ 0 }} pub type {gt}Alias = {gt}; }}"),
         9 => format!("macro_rules! user_macro_{n} {{ ($x:expr) => {{ $x + 1 }}; ($x:expr, $($y:tt)*) => {{ $x }}; }}"),
         10 => format!("/// user docs for item {n}\n#[allow(dead_code)]\nfn user_private_{n}() {{ let _ = |a: u8| a as u32; }}"),
-        _ => format!("pub type UserAlias{n}<'i> = std::borrow::Cow<'i, str>;"),
+        11 => format!("pub type UserAlias{n}<'i> = std::borrow::Cow<'i, str>;"),
+        // items that carry a generated name without being a type or a function
+        // of the module: they must neither suppress generation nor be touched
+        12 => format!("macro_rules! {gf} {{ () => {{ 0 }}; ($x:expr) => {{ $x }}; }}"),
+        13 => format!("#[allow(non_upper_case_globals)]\npub static {gt}: u8 = {n} as u8;"),
+        14 => format!("impl {gt} {{ pub fn {gf}(&self) -> u8 {{ 0 }} pub const USER_{n}: u8 = 1; }}"),
+        15 => format!("pub(crate) struct {gt}Helper{n}<'a, T: 'a + ?Sized>(pub(crate) &'a T);"),
+        16 => format!("#[cfg(test)]\nmod user_tests_{n} {{ use super::*; #[test] fn {gf}() {{ assert_eq!(1 + 1, 2); }} }}"),
+        17 => format!("extern \"C\" {{ fn user_ffi_{n}(x: u8) -> u8; }}"),
+        18 => format!("#[repr(C)]\npub union UserUnion{n} {{ a: u8, b: u32 }}"),
+        _ => format!("pub use self::user_mod_{n}::{{{gt} as UserReexport{n}, *}};"),
     };
     let item: syn::Item = syn::parse_str(&src).expect("harness template must parse");
     (label(&item), item)
@@ -421,7 +431,29 @@ fn edit(rng: &mut Rng, cur: &[u8], m: &Model, n: usize, snapshots: &[Vec<u8>], s
     let derived: Vec<usize> = f.items.iter().enumerate().filter(|(_, i)| !is_header(i) && ns_name(i).map(|nn| u_names.contains(&nn)).unwrap_or(false)).map(|(k, _)| k).collect();
     let kind: &'static str;
     let desc: String;
-    match rng.below(11) {
+    match rng.below(12) {
+        11 => {
+            // the user keeps two attribute-selected alternatives of one item
+            if derived.is_empty() {
+                return None;
+            }
+            kind = "cfg-split";
+            let k = *rng.pick(&derived);
+            let mut alt = f.items[k].clone();
+            let on: syn::Attribute = syn::parse_quote!(#[cfg(feature = "verif_alt")]);
+            let off: syn::Attribute = syn::parse_quote!(#[cfg(not(feature = "verif_alt"))]);
+            let push = |i: &mut syn::Item, a: syn::Attribute| match i {
+                syn::Item::Fn(x) => x.attrs.push(a),
+                syn::Item::Struct(x) => x.attrs.push(a),
+                syn::Item::Enum(x) => x.attrs.push(a),
+                syn::Item::Type(x) => x.attrs.push(a),
+                _ => {}
+            };
+            push(&mut f.items[k], off);
+            push(&mut alt, on);
+            desc = format!("split {} into two cfg-selected alternatives", label(&f.items[k]));
+            f.items.insert(k + 1, alt);
+        }
         10 => {
             kind = "add-file-attr";
             let attr: syn::Attribute = match rng.below(4) {
@@ -860,6 +892,7 @@ fn c18_spec(rng: &mut Rng) -> Spec {
     s.custom_lexer = rng.chance(1, 6);
     s.arrays = rng.chance(1, 2);
     s.out_dirs = rng.chance(1, 4);
+    s.out_only = if s.out_dirs { *rng.pick(&[0u8, 0, 1, 2]) } else { 0 };
     s.force = false;
     // "not forced" by the documented default instead of an explicit call
     s.force_implicit = !s.out_dirs && rng.chance(1, 3);
